@@ -12,7 +12,7 @@ EXPLANATION = (
     "sentence k is processed are never touched again and depend only on sentences < k and the indents. Also decided: the "
     "formatter wires `semantic` to this wrapper with the no-minimum splitter and the default minimum line length, the "
     "sentence-end pattern is end-anchored, accepts the documented sentence ends (constant samples incl. closing quotes / parenthesis before or after the punctuation) and is applied per word, sentences are words joined by one space, both factories use "
-    "the same Markdown decorator stack. Not decided: suffix stability and break placement as arithmetic on lengths."
+    "the same Markdown decorator stack; the only newlines of a paragraph that survive wrapping are decided by tag-adjacency predicates (Y3; the block-content heuristic of the tag handler is a recorded finding). Not decided: suffix stability and break placement as arithmetic on lengths."
 )
 
 
@@ -23,6 +23,7 @@ def run(ctx: Ctx) -> None:
     ctx.rule("R-SENT-split", "sentence ends are detected per word by an end-anchored pattern; default splitter has no minimum")
     ctx.rule("R-CONSUMER", "`semantic` selects the sentence wrapper")
     ctx.rule("R-LAYOUT-Y4", "both wrapper factories apply the same decorator stack")
+    ctx.rule("R-LAYOUT-Y3", "newlines kept inside a paragraph are tag-adjacent ones: segment boundaries of the tag newline handler are tag-adjacency predicates")
     ctx.rule("R-ACCT", "columns handed to the wrapping core: a sentence starts at the column of its line; a new line starts at the continuation offset")
     ctx.run(wrap.check_sentence_lines)
     ctx.run(wrap.check_sentence_split)
@@ -30,3 +31,4 @@ def run(ctx: Ctx) -> None:
     ctx.run(layout.check_decorator_stack)
     ctx.run(wrap.check_accounting, True)
     ctx.run(wrap.check_wrapping_memos)
+    ctx.run(layout.check_segment_predicates)
